@@ -5,6 +5,7 @@ import (
 	"math/rand"
 	"net"
 	"strings"
+	"sync"
 	"time"
 
 	bgp "github.com/jwhited/corebgp"
@@ -21,7 +22,8 @@ func scenWriters(e *Env, args []string, r *rand.Rand) {
 	m := argMap(args)
 	k, n := atoi(m["k"], 4), atoi(m["n"], 20)
 	rhold := uint16(atoi(m["rhold"], 3))
-	p := e.addPeer(1, PeerOpts{LocalAS: localAS, RemoteAS: remoteAS, Hold: 3, Passive: dir == "in", IdleHold: 50 * time.Millisecond})
+	p := e.addPeer(1, PeerOpts{LocalAS: localAS, RemoteAS: remoteAS, Hold: 3, Passive: dir == "in", IdleHold: 50 * time.Millisecond,
+		SmallSndBuf: m["stall"] != ""})
 	mk := func(w, i int) []byte {
 		l := r.Intn(40)
 		switch r.Intn(10) {
@@ -66,6 +68,37 @@ func scenWriters(e *Env, args []string, r *rand.Rand) {
 		}
 		// let the writers run (keepalives interleave every second with hold time 3)
 		wait := time.Duration(atoi(m["ms"], 300)) * time.Millisecond
+		if st := atoi(m["stall"], 0); st > 0 {
+			// the remote stops reading for a while (but keeps sending KEEPALIVEs): writers block in the middle of a
+			// message; when it reads again the stream is still a sequence of whole messages
+			c.smallWindow()
+			c.pauseReads(time.Duration(st) * time.Millisecond)
+			for t := 0; t < st; t += 700 {
+				time.Sleep(700 * time.Millisecond)
+				c.send(wire.Keepalive())
+			}
+			wait = 300 * time.Millisecond
+		}
+		if m["end"] == "rst-busy" {
+			// the connection is reset while the FSM goroutine is busy in the handler (the session is formally still
+			// up): a WriteUpdate issued well after the reset must report the failure
+			p.plugin.HandlerDelay = 200 * time.Millisecond
+			time.Sleep(wait)
+			c.send(wire.Update([]byte{0, 0, 0, 0}))
+			p.waitEv(0, stepWait, "cb.enter", "handler")
+			c.reset()
+			time.Sleep(30 * time.Millisecond)
+			p.plugin.mu.Lock()
+			w, wid := p.plugin.lastW, fmt.Sprintf("w%d", p.plugin.writerSeq)
+			p.plugin.mu.Unlock()
+			if w != nil {
+				for k := 0; k < 3; k++ {
+					p.plugin.write(w, wid, []byte{201, 0, byte(k)})
+				}
+			}
+			p.waitEv(0, stepWait, "cb.exit", "OnClose")
+			wait = 0
+		}
 		time.Sleep(wait)
 		p.mark = e.tr.len()
 		switch m["end"] {
@@ -79,7 +112,9 @@ func scenWriters(e *Env, args []string, r *rand.Rand) {
 			c.waitEnd(stepWait)
 		}
 		if m["end"] != "" && m["end"] != "none" && m["end"] != "close" {
-			p.waitEv(p.mark, stepWait, "cb.exit", "OnClose")
+			if m["end"] != "rst-busy" {
+				p.waitEv(p.mark, stepWait, "cb.exit", "OnClose")
+			}
 			// the old writer must now fail and must not reach any later connection
 			p.plugin.mu.Lock()
 			w, wid := p.plugin.lastW, fmt.Sprintf("w%d", p.plugin.writerSeq)
@@ -120,6 +155,9 @@ func scenHold(e *Env, args []string, r *rand.Rand) {
 		ihold = 50 * time.Millisecond
 	}
 	p := e.addPeer(1, PeerOpts{LocalAS: localAS, RemoteAS: remoteAS, Hold: l, Passive: dir == "in", IdleHold: ihold})
+	if m["pat"] == "slowupd" {
+		p.plugin.HandlerDelay = 600 * time.Millisecond
+	}
 	if m["pat"] == "writes" {
 		var bodies [][]byte
 		for i := 0; i < 200; i++ {
@@ -176,6 +214,15 @@ func scenHold(e *Env, args []string, r *rand.Rand) {
 					c.send(wire.Update([]byte{0, 0, 0, 0}))
 				}
 				time.Sleep(gap)
+			}
+		case "slowupd":
+			// an UPDATE arrives shortly before the hold timer would expire and its handler runs past that instant;
+			// the message restarted the timer, so nothing expires as long as KEEPALIVEs follow in time
+			time.Sleep(time.Duration(neg)*time.Second - 300*time.Millisecond)
+			c.send(wire.Update([]byte{0, 0, 0, 0}))
+			for time.Now().Before(deadline) {
+				time.Sleep(time.Duration(neg) * time.Second / 3)
+				c.send(wire.Keepalive())
 			}
 		case "late":
 			// a message just before each expiry keeps the session alive
@@ -427,6 +474,31 @@ func scenShutdown(e *Env, args []string, r *rand.Rand) {
 			stop(p)
 			release()
 		}
+	case "second-in-window":
+		// a second inbound connection arrives while the FSM created for the first has not had its first transition
+		// served yet (held at the request point): it is refused like any connection that arrives while one is in progress
+		p := e.addPeer(1, PeerOpts{LocalAS: localAS, RemoteAS: remoteAS, Hold: 90, Passive: true})
+		e.serve()
+		release := e.hold("fsm.request")
+		e.tr.log(p.key, "probe", "known", p.addr.String(), "127.0.0.1")
+		a := p.remote.dial()
+		if e.tr.wait(0, stepWait, func(ev Event) bool { return ev.Ev == "pt.reached" && ev.Args[0] == "fsm.request" }) < 0 {
+			e.fail("fsm.request not reached")
+		}
+		e.tr.log(p.key, "probe", "busy", p.addr.String(), "127.0.0.1")
+		b := p.remote.dial()
+		if b != nil {
+			b.waitMsgs(1, 100*time.Millisecond)
+		}
+		release()
+		if a != nil {
+			a.waitMsgs(1, stepWait)
+			a.send(wire.Open(remoteAS, 90, remoteID, tag(a)))
+			a.waitMsgs(2, stepWait)
+			a.send(wire.Keepalive())
+			p.waitEv(0, stepWait, "cb.exit", "OnEstablished")
+		}
+		stop(p)
 	case "second-inbound":
 		// a second inbound connection from the same peer arrives while the first is in progress
 		p := e.addPeer(1, PeerOpts{LocalAS: localAS, RemoteAS: remoteAS, Hold: 90, Passive: true})
@@ -525,6 +597,12 @@ func scenShutdown(e *Env, args []string, r *rand.Rand) {
 			p2.waitEv(0, stepWait, "cb.exit", "OnEstablished")
 		}
 		e.close()
+	case "listeners":
+		// Serve on three listeners: Close ends all accept loops and returns
+		p := e.addPeer(1, PeerOpts{LocalAS: localAS, RemoteAS: remoteAS, Hold: 90, Passive: dir == "in"})
+		e.serveN(3)
+		p.bring(dir, "established", 90, remoteID)
+		stop(p)
 	case "manypeers":
 		// five peers with connections in different states; every one of them is stopped by Close
 		var ps []*Peer
@@ -618,6 +696,19 @@ func scenReconnect(e *Env, args []string, r *rand.Rand) {
 				from = i + 1
 			}
 			time.Sleep(ih / 2)
+		case f == "dialrace":
+			// the dial succeeds at the very moment the connect-retry timer expires (the dialler is held between
+			// DialContext returning and the hand-off of its result until the timer has fired): the established
+			// connection is used (or at least closed), never dropped on the floor
+			if p.remote.lis == nil {
+				p.remote.listen()
+			}
+			release := e.hold("dial.done")
+			if e.tr.wait(p.mark, ih*3+stepWait, func(ev Event) bool { return ev.Ev == "pt.reached" && ev.Args[0] == "dial.done" }) < 0 {
+				e.fail("dial.done not reached")
+			}
+			time.Sleep(cr + 30*time.Millisecond)
+			release()
 		case f == "stall":
 			// connects hang (SYNs dropped): each expired connect-retry timer must abandon the pending attempt
 			// and start a new one
@@ -697,8 +788,14 @@ func scenInboundResume(e *Env, args []string, r *rand.Rand) {
 		if !passive {
 			p.waitEv(p.mark, 2*time.Second, "dial")
 		}
-		e.tr.log(p.key, "probe", "known", p.addr.String(), "127.0.0.1")
-		p.bring("in", "established", 90, remoteID)
+		if m["next"] == "out" {
+			// the next session is an outbound one: the remote starts listening now
+			p.remote.listen()
+			p.bring("out", "established", 90, remoteID)
+		} else {
+			e.tr.log(p.key, "probe", "known", p.addr.String(), "127.0.0.1")
+			p.bring("in", "established", 90, remoteID)
+		}
 	}
 	e.close()
 }
@@ -742,9 +839,9 @@ func scenDamping(e *Env, args []string, r *rand.Rand) {
 		probe.drainClose()
 	}
 	time.Sleep(wait - wait/3)
-	if m["expire"] == "1" {
-		// the hold-down period ends (the timer is made to fire now through the verif hook): the peer is retried and
-		// can establish again
+	// expire=<n>: n times over, the hold-down period ends (the timer is made to fire now through the verif hook), the
+	// peer is retried and establishes again, and the same fault strikes again: the hold-downs follow the back-off ladder
+	for round := atoi(m["expire"], 0); round > 0; round-- {
 		p.mark = e.tr.len()
 		e.tr.log(p.key, "hook.expire")
 		bgp.VerifExpireStartupDelay(e.srv, p.addr)
@@ -752,9 +849,22 @@ func scenDamping(e *Env, args []string, r *rand.Rand) {
 		if dir == "in" {
 			e.tr.log(p.key, "probe", "known", p.addr.String(), "127.0.0.1")
 		}
-		if c2 := p.bring(dir, "established", 90, remoteID); c2 != nil {
-			c2.send(wire.Update([]byte{0, 0, 0, 9}))
-			p.waitEv(p.mark, stepWait, "cb.exit", "handler")
+		c2 := p.bring(dir, "established", 90, remoteID)
+		if c2 == nil {
+			break
+		}
+		c2.send(wire.Update([]byte{0, 0, 0, 9}))
+		p.waitEv(p.mark, stepWait, "cb.exit", "handler")
+		if round > 1 {
+			switch {
+			case strings.HasPrefix(how, "sent."):
+				c2.send(stimulus(how[5:], r))
+			default:
+				c2.send(wire.Notification(uint8(atoi(strings.TrimPrefix(how, "rcvd."), 3)), 1, nil))
+			}
+			c2.waitEnd(stepWait)
+			p.waitEv(p.mark, stepWait, "log.damp")
+			time.Sleep(150 * time.Millisecond)
 		}
 	}
 	e.close()
@@ -966,6 +1076,35 @@ func scenAPIRace(e *Env, args []string, r *rand.Rand) {
 // open-caps — the plugin keeps one capability slice and updates it in place; the outbound FSM reconnects
 // several times: every OPEN must carry what GetCapabilities returned for that connection
 func scenOpenCaps(e *Env, args []string, r *rand.Rand) {
+	if args[0] == "concurrent" {
+		// OPENs of several peers (different AS, different capabilities) are in flight at the same time: each connection
+		// carries its own peer's OPEN
+		var ps []*Peer
+		for k := 1; k <= 4; k++ {
+			p := e.addPeer(k, PeerOpts{LocalAS: uint32(localAS + 1000*k), RemoteAS: remoteAS, Hold: uint16(30 * k), Passive: true})
+			val := make([]byte, 3+7*k)
+			for i := range val {
+				val[i] = byte(16*k + i)
+			}
+			p.plugin.Caps = []bgp.Capability{{Code: uint8(100 + k), Value: val}}
+			ps = append(ps, p)
+		}
+		e.serveAdv(true)
+		var wg sync.WaitGroup
+		for _, p := range ps {
+			wg.Add(1)
+			go func(p *Peer) {
+				defer wg.Done()
+				if c := p.remote.dial(); c != nil {
+					c.waitMsgs(1, stepWait)
+				}
+			}(p)
+		}
+		wg.Wait()
+		time.Sleep(10 * time.Millisecond)
+		e.close()
+		return
+	}
 	p := e.addPeer(1, PeerOpts{LocalAS: localAS, RemoteAS: remoteAS, Hold: 90, IdleHold: 30 * time.Millisecond, ConnectRetry: 200 * time.Millisecond})
 	p.plugin.Caps = []bgp.Capability{{Code: 64, Value: []byte{0x02, 0x00, 0x70}}, {Code: 2, Value: nil}}
 	p.plugin.MutateCaps = args[0] == "mutate"
@@ -1086,6 +1225,12 @@ func init() {
 				}
 				// keepalives interleave: hold 3 s => a KEEPALIVE every second while writers write slowly
 				out = append(out, fmt.Sprintf("writers:%s:k=2:n=40:end=cease:inside=1:pause=60:ms=2500:i=%d", dir, rep))
+				// the remote stops reading for 2.6 s under continuous large writes (hold 3: keepalives are due meanwhile)
+				if dir == "out" {
+					out = append(out, fmt.Sprintf("writers:out:k=3:n=60:end=cease:inside=0:big=1:stall=2600:ms=100:i=%d", rep))
+				}
+				// reset while the FSM goroutine is busy: later writes report the failure
+				out = append(out, fmt.Sprintf("writers:%s:k=1:n=3:end=rst-busy:inside=0:ms=50:i=%d", dir, rep))
 				// large bodies, sparse writes, keepalives every second, the write-interleaving adversary on the connection
 				if dir == "in" {
 					out = append(out, fmt.Sprintf("writers:in:k=2:n=12:end=cease:inside=0:pause=250:big=1:adv=1:ms=2600:i=%d", rep))
@@ -1136,7 +1281,8 @@ func init() {
 		}
 		// the session under observation follows one that negotiated a different hold time (same peer; for
 		// dir=out the same FSM object)
-		out = append(out, "hold:out:l=30:r=3:r1=9:pat=ka:ms=3500", "hold:out:l=30:r=3:r1=9:pat=silent:ms=4500",
+		out = append(out, "hold:out:l=3:r=3:pat=slowupd:ms=5500", "hold:in:l=3:r=9:pat=slowupd:ms=5500", "hold:out:l=90:r=3:pat=ka:ms=3500", "hold:in:l=90:r=3:pat=silent:ms=4500",
+			"hold:out:l=30:r=3:r1=9:pat=ka:ms=3500", "hold:out:l=30:r=3:r1=9:pat=silent:ms=4500",
 			"hold:out:l=3:r=3:r1=0:pat=silent:ms=4500", "hold:out:l=30:r=0:r1=3:pat=ka:ms=3500", "hold:in:l=30:r=3:r1=9:pat=ka:ms=3500")
 		return out
 	}
@@ -1180,7 +1326,7 @@ func init() {
 			n = 20
 		}
 		for _, api := range []string{"close", "delete"} {
-			for _, pt := range []string{"idle", "before-serve", "twopeers", "dial-window", "manypeers", "manypeers:i=1"} {
+			for _, pt := range []string{"idle", "before-serve", "twopeers", "dial-window", "manypeers", "manypeers:i=1", "listeners:dir=in", "listeners:dir=out"} {
 				out = append(out, fmt.Sprintf("shutdown:%s:%s", api, pt))
 			}
 			for _, dir := range []string{"out", "in"} {
@@ -1208,6 +1354,7 @@ func init() {
 			for _, st := range []string{"openSent", "openConfirm", "established"} {
 				out = append(out, fmt.Sprintf("shutdown:%s:second-inbound:st=%s", api, st))
 			}
+			out = append(out, fmt.Sprintf("shutdown:%s:second-in-window", api))
 			out = append(out, "admission:specific-prequeued:i="+api)
 			for _, st := range []string{"openConfirm", "established"} {
 				out = append(out, fmt.Sprintf("shutdown:%s:listener-error:dir=out:st=%s", api, st))
@@ -1222,7 +1369,9 @@ func init() {
 	}
 	scenarioLists["C11"] = func(tier string, r *rand.Rand) []string {
 		out := []string{"reconnect:refuse:ih=200:cr=500", "reconnect:refuse:ih=50:cr=500", "reconnect:x:passive", "inbound-resume",
-			"inbound-resume:st=openSent", "inbound-resume:st=openConfirm", "inbound-resume:st=established:passive=1", "inbound-resume:st=openConfirm:passive=1",
+			"reconnect:dialrace:ih=50:cr=60", "reconnect:refuse+dialrace:ih=50:cr=60", "reconnect:dialrace+close@openSent:ih=50:cr=60",
+			"inbound-resume:st=openSent", "inbound-resume:st=openConfirm", "inbound-resume:st=established:next=out", "inbound-resume:st=openConfirm:next=out",
+			"reconnect:cease@openSent+cease@openSent:ih=50:cr=500", "reconnect:cease@established+cease@openConfirm+cease@openSent:ih=50:cr=500", "inbound-resume:st=established:passive=1", "inbound-resume:st=openConfirm:passive=1",
 			"reconnect:stall:ih=100:cr=300", "inbound-fin:passive", "inbound-fin:active"}
 		if tier == "thorough" {
 			out = append(out, "reconnect:refuse:ih=1000:cr=2000")
@@ -1272,7 +1421,10 @@ func init() {
 		out = append(out, "damping-both:ka", "damping-both:badmarker", "damping-both:notif-other")
 		// the end of the hold-down period (timer expired through the hook): retried, establishes again
 		for _, dir := range []string{"out", "in"} {
-			out = append(out, fmt.Sprintf("damping:%s:established:sent.badmarker:expire=1:ms=600", dir), fmt.Sprintf("damping:%s:openConfirm:rcvd.3:expire=1:ms=600", dir))
+			out = append(out, fmt.Sprintf("damping:%s:established:sent.badmarker:expire=1:ms=600", dir), fmt.Sprintf("damping:%s:openConfirm:rcvd.3:expire=1:ms=600", dir),
+				fmt.Sprintf("damping:%s:established:rcvd.3:expire=3:ms=450", dir))
+			// every received OPEN Message Error subcode damps, also "unsupported version"
+			out = append(out, fmt.Sprintf("damping:%s:openSent:rcvd.2", dir), fmt.Sprintf("damping:%s:openConfirm:rcvd.2", dir))
 		}
 		// a protocol error pending in the FSM's error hand-off when the manager stops that FSM (collision kill)
 		out = append(out, "collision-window:fsmerr:lid=10.0.0.100:i=0", "collision-window:fsmerr:lid=10.0.0.100:i=1")
@@ -1322,7 +1474,7 @@ func init() {
 	}
 	scenarioLists["C14"] = func(tier string, r *rand.Rand) []string {
 		// + an OPEN sent after an earlier session negotiated a lower hold time (it must carry the configured one)
-		return []string{"open-caps:fresh", "open-caps:mutate", "open-caps:mutate:i=1", "hold:out:l=30:r=3:r1=9:pat=ka:ms=1200", "hold:in:l=30:r=3:r1=9:pat=ka:ms=1200"}
+		return []string{"open-caps:fresh", "open-caps:mutate", "open-caps:mutate:i=1", "open-caps:concurrent", "open-caps:concurrent:i=1", "open-caps:concurrent:i=2", "hold:out:l=30:r=3:r1=9:pat=ka:ms=1200", "hold:in:l=30:r=3:r1=9:pat=ka:ms=1200"}
 	}
 	scenarioLists["C05"] = func(tier string, r *rand.Rand) []string {
 		var out []string
